@@ -473,7 +473,8 @@ func (s *state) appendHandler(
 		Body: "*",
 	}
 	if err := s.path.addRule(implicitRule, desc, h.method); err != nil {
-		panic(fmt.Sprintf("bug: %v", err))
+		// Another method's rule already claims this method's own path.
+		return fmt.Errorf("[%s] implicit rule: %w", desc.FullName(), err)
 	}
 
 	// Add all ServiceConfig.http rules.
